@@ -58,8 +58,8 @@ CHECKS.update({
             "Oracle: refscheme.py (R7RS 6.10, 4.2.6, 6.11, reference guard of 7.3); continuation use inside before/after thunks and "
             "cross-thread continuations are excluded.", "DESIGN.md §4 C06"),
     "C10": ("model_checking", "explicit-state breadth-first exploration of alloc/link/clear/gc histories on the real allocator with a heap-walk invariant checker, plus lasso (cycle) detection for boundedness",
-            "harness/heapmc.c drives sexp_alloc/sexp_gc of a bare context: all histories to depth 4 (quick) / 5 (thorough) over 37 "
-            "operations (9 object shapes from one chunk to larger-than-heap into 3 root slots, link, clear, gc) from several initial heap "
+            "harness/heapmc.c drives sexp_alloc/sexp_gc of a bare context: all histories to depth 4 (quick) / 5 (thorough) over 40 "
+            "operations (10 object shapes from one chunk to five times the heap into 3 root slots, link, clear, gc; no allocation may fail, the heap has no size limit) from several initial heap "
             "sizes, de-duplicated on the exact tiling of every heap segment plus the root/link graph. After every transition and every "
             "collection: chunks tile each segment exactly, the free list is address-ordered, non-overlapping, 32-byte granular and fully "
             "coalesced after a sweep, no mark bit survives, every slot of every live object designates the start of a live object, and after "
